@@ -180,6 +180,22 @@ def run(ck, F, E):
                        "Tokenizer starts with index 0", "Tokenizer is constructed with a non-zero cursor", sp)
     ck.floor("C13.writes to Tokenizer.index", n_writes, 8)
 
+    # a token matcher never skips blanks on its own: chomp_leading_whitespace() (the only function that may advance by
+    # LineCruncher::pos()) is called before a token starts, by the iterator / chomp_next_token, not from inside a matcher --
+    # otherwise a token that is not extended after the blanks ends on them
+    for body in F.bodies.values():
+        if body.crate != "abasic_core" or body.self_adt != "abasic_core::tokenizer::Tokenizer":
+            continue
+        fnname = body.path.split("::")[-1]
+        if not fnname.startswith("chomp_") or fnname in ("chomp_leading_whitespace", "chomp_next_token"):
+            continue
+        skips = body.calls_to("Tokenizer::chomp_leading_whitespace")
+        ck.require(not skips, "C13:END:%s:skips-blanks" % fnname, "tokens end on a non-blank",
+                   "%s does not call the blank skipper" % fnname,
+                   "Tokenizer::%s skips blanks itself (chomp_leading_whitespace) after its token has started: when nothing "
+                   "that extends the token follows, the reported range ends on those blanks" % fnname,
+                   skips[0].span if skips else body.span, nontrivial=False)
+
     # LineCruncher: position counts the byte just returned; increments by 1 only
     lc = F.one("<abasic_core::line_cruncher::LineCruncher as core::iter::traits::iterator::Iterator>::next")
     if lc is None:
@@ -354,7 +370,8 @@ def errpos_rules(ck, F, P):
         for variant in ("IllegalCharacter", "UnterminatedStringLiteral"):
             for b, i, pl, rv, sp in aggregates(body, "syntax_error::TokenizationError", variant):
                 n_err += 1
-                e = strip_expr(body.expr(rv["ops"][0]))
+                from lib import resolve_captures
+                e = strip_expr(resolve_captures(F, body, body.expr(rv["ops"][0])))
                 ok = e[0] == "place" and e[2] and e[2][-1] == (TOK, "index")
                 ck.require(ok, "%s:ERRPOS:%s" % (P, variant), "error position", "%s(self.index)" % variant,
                            "%s carries %s instead of the cursor" % (variant, show(e)), sp)
